@@ -15,6 +15,7 @@ package main
 import (
 	"fmt"
 	"math"
+	"os"
 	"reflect"
 	"strconv"
 	"strings"
@@ -364,19 +365,20 @@ func reasonsUnder(entry string, fs []Field, toks []Tok, asPresent map[int]bool) 
 	for i, f := range fs {
 		t := toks[i]
 		dc := delivery(entry, f)
-		switch f.Opt {
-		case OptDep: // both or neither
+		switch unj := depUnjudged(entry, fs, i); {
+		case unj: // dependency through a dotted key: not judged (keys.go); the field counts as optional
+		case f.Opt == OptDep: // both or neither
 			if pres[i] != pres[f.Dep] {
 				out = append(out, reason{"dep-relation", i})
 			}
-		case OptNotDep: // exactly one
+		case f.Opt == OptNotDep: // exactly one
 			if pres[i] == pres[f.Dep] {
 				out = append(out, reason{"dep-relation", i})
 			}
 		}
 		if !pres[i] {
-			if f.Opt != OptNone {
-				continue // optional (the dependency relation was checked above)
+			if f.Opt != OptNone || (f.Kind == KEmbed && f.EmbOpt) {
+				continue // optional (the dependency relation was checked above); an optional embedded struct may be left out as a whole
 			}
 			switch {
 			case f.Kind.scalar():
@@ -417,8 +419,124 @@ func reasonsUnder(entry string, fs []Field, toks []Tok, asPresent map[int]bool) 
 	return out
 }
 
-// mustReject: the reasons under the most lenient reading of the nulls (empty = acceptance allowed).
+// ---------------------------------------------------------------------------------------------
+// Dotted key names (keys.go). The mapping package documents a dotted key as a path ("the key can be
+// in the format of parentKey.childKey") and WithOpaqueKeys as "one name, dots included" (form and
+// path parameters). The statement itself says nothing about key names, so:
+//   * json / key / conf: the value under the path p → q is the supplied field; under form / path
+//     the flat parameter "p.q" is.
+//   * the OTHER placement (a flat member "p.q" in a document, a nested map below a form / path /
+//     header unmarshaler) is read both as "field absent" and as "field supplied": a rejection is
+//     demanded only if both readings demand it, acceptance never, the target may hold the value or
+//     the default / zero value.
+//   * header: both placements are read both ways (a request can only deliver the flat header
+//     "P.q", the unmarshaler looks for the path P → q; see NOTES.md, candidate finding 7).
+//   * optional=dep / optional=!dep where the field's own key or the dependency's key is dotted, below
+//     a path-reading unmarshaler: the relation is not judged and the field counts as optional (the
+//     library resolves dependencies by the flat key text; NOTES.md, candidate finding 6).
+//     C08_STRICT=1 judges all of these strictly (the findings then show as violations).
+// History independence (hist.go, keys.go) pins all of them: whatever the outcome is, it is the same
+// in every process history.
+
+var strictDotted = os.Getenv("C08_STRICT") != "" || os.Getenv("C08_STRICT_DOTTED") != ""
+
+func pathReading(dc string) bool { return dc == "json" || dc == "native" || dc == "header" }
+
+func depUnjudged(entry string, fs []Field, i int) bool {
+	f := fs[i]
+	if f.Opt < OptDep || strictDotted {
+		return false
+	}
+	if bareEmbeddedHeader(entry, fs[f.Dep]) {
+		return true // the dependency is found under its canonical key, the member itself is not (candidate finding 9)
+	}
+	return (f.dotted() || fs[f.Dep].dotted()) && pathReading(delivery(entry, f))
+}
+
+// bareEmbeddedHeader: a member of an `,optional` embedded struct whose header tag carries no option:
+// the library looks it up under the un-canonicalised key and never finds it (NOTES.md, candidate
+// finding 9); read both ways unless C08_STRICT=1.
+func bareEmbeddedHeader(entry string, f Field) bool {
+	return f.Kind == KEmbed && f.EmbOpt && delivery(entry, f) == "header" &&
+		f.Opt == OptNone && f.Def == "" && f.Rng < 0 && !f.Opts && !f.Str
+}
+
+// placementSites: the fields whose presence is read both ways.
+func placementSites(entry string, fs []Field, toks []Tok) []int {
+	var s []int
+	for i, t := range toks {
+		switch {
+		case t.T == "absent":
+		case t.T == "alt":
+			s = append(s, i)
+		case fs[i].dotted() && delivery(entry, fs[i]) == "header" && !strictDotted:
+			s = append(s, i)
+		case bareEmbeddedHeader(entry, fs[i]) && !strictDotted:
+			s = append(s, i)
+		}
+	}
+	return s
+}
+
+// readPlacements: the token vector under one reading (bit b set: site b counts as supplied).
+func readPlacements(toks []Tok, sites []int, mask int) []Tok {
+	out := append([]Tok{}, toks...)
+	for b, s := range sites {
+		if mask&(1<<b) != 0 {
+			out[s], _ = toks[s].placed()
+		} else {
+			out[s] = tA()
+		}
+	}
+	return out
+}
+
 func mustReject(entry string, fs []Field, toks []Tok) []reason {
+	sites := placementSites(entry, fs, toks)
+	if len(sites) == 0 {
+		return mustReject0(entry, fs, toks)
+	}
+	var best []reason
+	for mask := 0; mask < 1<<len(sites); mask++ {
+		rs := mustReject0(entry, fs, readPlacements(toks, sites, mask))
+		if len(rs) == 0 {
+			return nil
+		}
+		if best == nil || len(rs) < len(best) {
+			best = rs
+		}
+	}
+	return best
+}
+
+func mustAccept(entry string, fs []Field, toks []Tok) bool {
+	return len(placementSites(entry, fs, toks)) == 0 && mustAccept0(entry, fs, toks)
+}
+
+func checkTarget(entry string, fs []Field, toks []Tok, target reflect.Value) *mismatch {
+	sites := placementSites(entry, fs, toks)
+	if len(sites) == 0 {
+		return checkTarget0(entry, fs, toks, target)
+	}
+	var first *mismatch
+	for mask := 0; mask < 1<<len(sites); mask++ {
+		rd := readPlacements(toks, sites, mask)
+		if len(mustReject0(entry, fs, rd)) > 0 {
+			continue // under this reading the input must not be accepted at all
+		}
+		m := checkTarget0(entry, fs, rd, target)
+		if m == nil {
+			return nil
+		}
+		if first == nil {
+			first = m
+		}
+	}
+	return first
+}
+
+// mustReject0: the reasons under the most lenient reading of the nulls (empty = acceptance allowed).
+func mustReject0(entry string, fs []Field, toks []Tok) []reason {
 	sites := nullSites(fs, toks)
 	var best []reason
 	for mask := 0; mask < 1<<len(sites); mask++ {
@@ -439,9 +557,9 @@ func mustReject(entry string, fs []Field, toks []Tok) []reason {
 
 // mustAccept: every supplied value is canonical and well typed, every declared constraint
 // holds, no null anywhere, and no case the statement is silent about is involved.
-func mustAccept(entry string, fs []Field, toks []Tok) bool {
+func mustAccept0(entry string, fs []Field, toks []Tok) bool {
 	for i, t := range toks {
-		if t.hasNull() {
+		if t.hasNull() || depUnjudged(entry, fs, i) {
 			return false
 		}
 		f := fs[i]
@@ -641,11 +759,18 @@ func checkScalarish(f Field, dc string, t Tok, rv reflect.Value, idx int, lenien
 }
 
 // checkTarget compares the whole target struct (a reflect.Value of the generated struct type).
-func checkTarget(entry string, fs []Field, toks []Tok, target reflect.Value) *mismatch {
+func checkTarget0(entry string, fs []Field, toks []Tok, target reflect.Value) *mismatch {
 	for i, f := range fs {
 		t := toks[i]
 		dc := delivery(entry, f)
 		rv := target.Field(i)
+		if f.Kind == KEmbed {
+			// flattened: X is the field; below an optional embedded struct that was left out nothing is promised (zero or default)
+			if m := checkScalarish(f, dc, t, rv.Field(0), i, f.EmbOpt); m != nil {
+				return m
+			}
+			continue
+		}
 		if f.Kind != KNested {
 			if m := checkScalarish(f, dc, t, rv, i, false); m != nil {
 				return m
